@@ -527,11 +527,56 @@ func runC16(c *core.Ctx) {
 			}
 			return normJSON(sum.GetPayload())
 		}
+		// two layouts that authorize one and the same functionary certificate, one of them trusting the CA
+		// that issued it, the other one another CA: verified side by side, each keeps its own verdict
+		certDir := filepath.Join(actors[0].dirs[0], "one-certificate-two-trust-stores")
+		certVerdict := func(trusting bool) string { return "fixture missing" }
+		{
+			fastKeys := gen.Fast(Pool(c))
+			owner, F := fastKeys[0], fastKeys[7]
+			ca1, e1 := gen.NewCA(gen.CertSpec{CN: "issuing-ca"}, nil)
+			ca2, e2 := gen.NewCA(gen.CertSpec{CN: "another-ca"}, nil)
+			if e1 == nil && e2 == nil {
+				if leafPEM, _, e3 := ca1.Issue(gen.CertSpec{CN: "shared-functionary"}, F.Public); e3 == nil {
+					linkDir := filepath.Join(certDir, "links")
+					mkdirs(linkDir)
+					fn := gen.Functionary{KeyPair: F, CertPEM: leafPEM}
+					gen.WriteLink(linkDir, gen.NewLink("build", nil, gen.Artifacts(map[string]string{"app": "a"})), fn.SigningKey(), false)
+					for name, ca := range map[string]*gen.CA{"trusting.layout": ca1, "not-trusting.layout": ca2} {
+						st := gen.Step("build", 1, nil, [][]string{{"ALLOW", "*"}}, [][]string{{"ALLOW", "*"}})
+						st.PubKeys = []string{}
+						cc := gen.WildcardConstraint()
+						cc.CommonName = "shared-functionary"
+						st.CertificateConstraints = []intoto.CertificateConstraint{cc}
+						l := gen.NewLayout([]intoto.Step{st}, nil, map[string]intoto.Key{})
+						l.RootCas = map[string]intoto.Key{ca.Key.KeyID: ca.Key}
+						if md, err := gen.SignedMeta(l, false, owner.Priv); err == nil {
+							md.Dump(filepath.Join(certDir, name))
+						}
+					}
+					certVerdict = func(trusting bool) string {
+						name := "not-trusting.layout"
+						if trusting {
+							name = "trusting.layout"
+						}
+						md, err := intoto.LoadMetadata(filepath.Join(certDir, name))
+						if err != nil {
+							return errClassOf(err)
+						}
+						if _, err := intoto.InTotoVerify(md, gen.KeyMap(owner), linkDir, "", map[string]string{}, nil, false); err != nil {
+							return "rejected: " + errClassOf(err)
+						}
+						return "accepted"
+					}
+				}
+			}
+		}
 		const burstG, burstN = 24, 12
 		gotDir := make([][]string, burstG)
 		got := make([][]string, burstG)
 		envBad := make([]string, burstG)
 		gotCmd := make([][]string, burstG)
+		gotCert := make([][]string, burstG)
 		var bw sync.WaitGroup
 		go2 := make(chan struct{})
 		for j := 0; j < burstG; j++ {
@@ -549,6 +594,10 @@ func runC16(c *core.Ctx) {
 					if j < G {
 						// one goroutine per run directory (the inspection command records that directory)
 						gotDir[j] = append(gotDir[j], verifyWithDir(actors[j]))
+					}
+					// the shared certificate under this goroutine's trust store (even: trusting, odd: not)
+					for rep := 0; rep < 6; rep++ {
+						gotCert[j] = append(gotCert[j], certVerdict(j%2 == 0))
 					}
 					// a command in a directory of this goroutine's own: the process-wide state it inherits
 					// (file creation mask, working directory) is nobody else's business
@@ -605,6 +654,20 @@ func runC16(c *core.Ctx) {
 				if r != want && bad < 9 {
 					bad++
 					c.Violation("concurrent InTotoVerifyWithDirectory (own run directory, inspection named like everybody else's; burst) returns another result than the same call made sequentially", id, map[string]any{"goroutine": j, "iteration": n, "concurrent": r, "sequential": want})
+				}
+			}
+		}
+		for _, trusting := range []bool{true, false} {
+			want := certVerdict(trusting) // sequential now
+			for j := 0; j < burstG; j++ {
+				if (j%2 == 0) != trusting {
+					continue
+				}
+				for n, r := range gotCert[j] {
+					if r != want && bad < 15 {
+						bad++
+						c.Violation("concurrent InTotoVerify of a layout with its own root CAs (the functionary's certificate is also being checked under another layout's roots) returns another result than the same call made sequentially", id, map[string]any{"goroutine": j, "iteration": n, "layout_trusts_the_issuing_ca": trusting, "concurrent": r, "sequential": want})
+					}
 				}
 			}
 		}
@@ -781,7 +844,7 @@ func init() {
 	core.Register(&core.Property{
 		ID:    "C16",
 		Level: "exploration",
-		Rule: "rounds = fresh worker processes (quick 16, thorough 48); round k uses G in {2,4,8,16,32} goroutines and GOMAXPROCS in {2,4,16}; every goroutine owns a generated tree (half with file and directory symlinks, half with 2 MiB CRLF files), keys, a chain directory and metadata files, and runs 1 (quick) / 3 (thorough) times the list LoadMetadata of layout and links (first library operation of the process: cold caches), RecordArtifacts with and without normalisation, Metablock Sign/Dump/Load/Verify and Envelope SetPayload/Sign/Dump/Load/Verify with the file rewritten four times under the same base name in every goroutine's own directory, InTotoRun (vhelper), InTotoRecordStart/Stop, InTotoMatchProducts, InTotoVerify (no inspections; two stray links by unauthorized keys for the first step; layout with its own intermediate CA; the caller's list of additional intermediates is one read-only slice with spare capacity shared by all goroutines), InTotoVerify of nested layouts, RecordArtifacts on a tree with a directory symlink cycle (the error text must be the caller's own), InTotoVerifyWithDirectory (own run dir, globally unique inspection name), SubstituteParameters; then a burst of 24 goroutines, each verifying a nested chain 12 times and (one goroutine per actor) a chain with an inspection in its own run directory, the inspection being named alike for all (compared with the sequential results), setting / dumping / loading 48 envelopes of its own with multi-line content (what is loaded is what was set), and (every third goroutine) running a shell command in a directory of its own that prints its file creation mask, the mode of a file it creates and its working directory (compared with the sequential run); then the same lists are executed sequentially on identical copies of the data and compared result by result. Even shards run the -race build with GORACE=halt_on_error=0 log_path=...: report blocks are counted from the log files and attributed by their in_toto frames; the hook handler there only yields. Odd shards run the normal build in census mode: hook events (record_reset / record_symlink) are logged with their owner, the evidence lists the distinct interleavings (windows of 12 events) and the maximum number of calls in flight. Hang monitor in both builds: a goroutine that shares nothing with the actors samples the CPU time of the process; a round whose process consumes no CPU for 45 s while calls are outstanding is reported (calls that never return) with the system call every thread is blocked in. " +
+		Rule: "rounds = fresh worker processes (quick 16, thorough 48); round k uses G in {2,4,8,16,32} goroutines and GOMAXPROCS in {2,4,16}; every goroutine owns a generated tree (half with file and directory symlinks, half with 2 MiB CRLF files), keys, a chain directory and metadata files, and runs 1 (quick) / 3 (thorough) times the list LoadMetadata of layout and links (first library operation of the process: cold caches), RecordArtifacts with and without normalisation, Metablock Sign/Dump/Load/Verify and Envelope SetPayload/Sign/Dump/Load/Verify with the file rewritten four times under the same base name in every goroutine's own directory, InTotoRun (vhelper), InTotoRecordStart/Stop, InTotoMatchProducts, InTotoVerify (no inspections; two stray links by unauthorized keys for the first step; layout with its own intermediate CA; the caller's list of additional intermediates is one read-only slice with spare capacity shared by all goroutines), InTotoVerify of nested layouts, RecordArtifacts on a tree with a directory symlink cycle (the error text must be the caller's own), InTotoVerifyWithDirectory (own run dir, globally unique inspection name), SubstituteParameters; then a burst of 24 goroutines, each verifying a nested chain 12 times and (one goroutine per actor) a chain with an inspection in its own run directory, the inspection being named alike for all (compared with the sequential results), setting / dumping / loading 48 envelopes of its own with multi-line content (what is loaded is what was set), verifying (72 times each) one of two layouts that authorize the same functionary certificate under different root CAs - one trusting the issuer, one not -, and (every third goroutine) running a shell command in a directory of its own that prints its file creation mask, the mode of a file it creates and its working directory (compared with the sequential run); then the same lists are executed sequentially on identical copies of the data and compared result by result. Even shards run the -race build with GORACE=halt_on_error=0 log_path=...: report blocks are counted from the log files and attributed by their in_toto frames; the hook handler there only yields. Odd shards run the normal build in census mode: hook events (record_reset / record_symlink) are logged with their owner, the evidence lists the distinct interleavings (windows of 12 events) and the maximum number of calls in flight. Hang monitor in both builds: a goroutine that shares nothing with the actors samples the CPU time of the process; a round whose process consumes no CPU for 45 s while calls are outstanding is reported (calls that never return) with the system call every thread is blocked in. " +
 			"non-trivial = a round with >=2 calls in flight; distinct = (mode, round, goroutine, position in its operation list) of the compared concurrent calls, plus (mode, G, GOMAXPROCS, interleaving hash) per round",
 		Assumptions: []string{"inspections of InTotoVerify without run directory use the process cwd and are excluded from 'independent data'; InTotoVerifyWithDirectory drops <inspection>.link into the shared cwd under globally unique names", "the race detector only sees races on executed paths; its silence is 'no report on these executions'"},
 		Workers: func(t string) int {
